@@ -173,6 +173,11 @@ func main() {
 		crashChild(os.Args[2:])
 		return
 	}
+	if len(os.Args) > 1 && os.Args[1] == "sock" {
+		os.Args = append(os.Args[:1], os.Args[2:]...)
+		sockMain()
+		return
+	}
 	if len(os.Args) > 1 && os.Args[1] == "tick" {
 		os.Args = append(os.Args[:1], os.Args[2:]...)
 		tickMain()
